@@ -1,0 +1,196 @@
+//go:build verif
+
+package main
+
+// Verification driver (built only with -tags verif): runs colDataTypes and
+// doBatchInsert against a real database and records what happened.
+//
+// Input (VERIF_CSV_IN), per case:
+//   case
+//   schema <name>:<int|bigint|varchar|boolean> ...
+//   map <dst,dst,...> <src,src,...> <separator code point>
+//   csv <hex of the input bytes>
+// Output (VERIF_CSV_OUT), per case: begin / types ... / rec|recerr ... /
+// ev ok|err ... / row ... / end.  The database lives under VERIF_CSV_DIR.
+
+import (
+	"bufio"
+	"bytes"
+	"encoding/csv"
+	"encoding/hex"
+	"fmt"
+	"io"
+	"os"
+	"strings"
+	"testing"
+
+	"github.com/mk6i/mkdb/storage"
+)
+
+func verifVal(v interface{}) string {
+	switch x := v.(type) {
+	case nil:
+		return "n"
+	case int64:
+		return fmt.Sprintf("i:%d", x)
+	case string:
+		if x == "" {
+			return "s:-"
+		}
+		return "s:" + hex.EncodeToString([]byte(x))
+	case bool:
+		if x {
+			return "b:1"
+		}
+		return "b:0"
+	}
+	return fmt.Sprintf("?%T", v)
+}
+
+func TestVerifCsvDriver(t *testing.T) {
+	in, out, dir := os.Getenv("VERIF_CSV_IN"), os.Getenv("VERIF_CSV_OUT"), os.Getenv("VERIF_CSV_DIR")
+	if in == "" || out == "" || dir == "" {
+		t.Skip("no driver input")
+	}
+	if err := os.Chdir(dir); err != nil {
+		t.Fatal(err)
+	}
+	null, _ := os.OpenFile(os.DevNull, os.O_WRONLY, 0)
+	os.Stdout = null
+	fin, err := os.Open(in)
+	if err != nil {
+		t.Fatal(err)
+	}
+	defer fin.Close()
+	fout, err := os.Create(out)
+	if err != nil {
+		t.Fatal(err)
+	}
+	defer fout.Close()
+	w := bufio.NewWriter(fout)
+	defer w.Flush()
+	sc := bufio.NewScanner(fin)
+	sc.Buffer(make([]byte, 1<<20), 1<<26)
+
+	caseNo := 0
+	var fields []storage.FieldDef
+	var cfg importCfg
+	for sc.Scan() {
+		f := strings.Fields(sc.Text())
+		if len(f) == 0 {
+			continue
+		}
+		switch f[0] {
+		case "case":
+			caseNo++
+			fields = nil
+		case "schema":
+			for _, c := range f[1:] {
+				p := strings.Split(c, ":")
+				ty := map[string]storage.DataType{"int": storage.TypeInt, "bigint": storage.TypeBigInt, "varchar": storage.TypeVarchar, "boolean": storage.TypeBoolean}[p[1]]
+				fields = append(fields, storage.FieldDef{Name: p[0], DataType: ty, Len: 255})
+			}
+		case "map":
+			cfg = importCfg{table: "t", dstCols: strings.Split(f[1], ",")}
+			for _, s := range strings.Split(f[2], ",") {
+				var n int
+				fmt.Sscan(s, &n)
+				cfg.srcCols = append(cfg.srcCols, n)
+			}
+			var sep int
+			fmt.Sscan(f[3], &sep)
+			cfg.separator = rune(sep)
+		case "csv":
+			raw, _ := hex.DecodeString(f[1])
+			fmt.Fprintln(w, "begin")
+			func() {
+				defer func() {
+					if r := recover(); r != nil {
+						fmt.Fprintln(w, "panic")
+					}
+				}()
+				db := fmt.Sprintf("db%d", caseNo)
+				if err := storage.CreateDB(db); err != nil {
+					fmt.Fprintln(w, "setuperr", err)
+					return
+				}
+				rm, err := storage.OpenRelation(db, false)
+				if err != nil {
+					fmt.Fprintln(w, "setuperr", err)
+					return
+				}
+				defer rm.Close()
+				if err := rm.CreateTable(&storage.Relation{Fields: fields}, "t"); err != nil {
+					fmt.Fprintln(w, "setuperr", err)
+					return
+				}
+				cfg.colTypes, err = colDataTypes(rm, cfg.table, cfg.dstCols)
+				if err != nil || cfg.colTypes == nil {
+					fmt.Fprintln(w, "typeserr")
+					return
+				}
+				ts := make([]string, len(cfg.colTypes))
+				for i, ty := range cfg.colTypes {
+					ts[i] = fmt.Sprint(int(ty))
+				}
+				fmt.Fprintln(w, "types", strings.Join(ts, ","))
+				// the record stream as encoding/csv yields it with the same settings
+				rd := csv.NewReader(bytes.NewReader(raw))
+				rd.FieldsPerRecord = -1
+				rd.Comma = cfg.separator
+				for {
+					rec, err := rd.Read()
+					if err == io.EOF {
+						break
+					}
+					if err != nil {
+						if _, ok := err.(*csv.ParseError); ok {
+							fmt.Fprintln(w, "recerr")
+							continue
+						}
+						fmt.Fprintln(w, "recfatal")
+						break
+					}
+					parts := make([]string, len(rec))
+					for i, s := range rec {
+						parts[i] = hex.EncodeToString([]byte(s))
+						if s == "" {
+							parts[i] = "-"
+						}
+					}
+					fmt.Fprintln(w, strings.TrimSpace("rec "+strings.Join(parts, " ")))
+				}
+				chOk, chErr := doBatchInsert(rm, cfg, bytes.NewReader(raw))
+				for chOk != nil || chErr != nil {
+					select {
+					case _, ok := <-chOk:
+						if ok {
+							fmt.Fprintln(w, "ev ok")
+						} else {
+							chOk = nil
+						}
+					case _, ok := <-chErr:
+						if ok {
+							fmt.Fprintln(w, "ev err")
+						} else {
+							chErr = nil
+						}
+					}
+				}
+				rows, _, err := rm.Fetch("t")
+				if err != nil {
+					fmt.Fprintln(w, "fetcherr")
+					return
+				}
+				for _, r := range rows {
+					vs := make([]string, len(r.Vals))
+					for i, v := range r.Vals {
+						vs[i] = verifVal(v)
+					}
+					fmt.Fprintln(w, "row", strings.Join(vs, " "))
+				}
+			}()
+			fmt.Fprintln(w, "end")
+		}
+	}
+}
